@@ -58,8 +58,20 @@ Synth.seti() cuts a list value that does not fit the control; objects of the
 second server are not used while a bind() block of the default server is
 open (whose block they belong to is not decided); bind() blocks whose bundle
 exceeds one UDP datagram, `yield from s.sync()` inside a block and the
-routine-driven Buffer transfers (send_list, load_list, get_to_list,
-load_to_list) are not in the alphabet.
+file-based Buffer transfers (load_list, new_load_list: write a temp file with
+a random name and leave it behind; load_to_list: reads a file only a running
+server writes) are not in the alphabet.
+
+E1 family 'stream' (check_stream): Buffer.send_list / new_send_list with
+{1, 1625, 1626, 1627, 3252, 3253, 4000} samples, 1|2 channels, start frame
+0|3, wait left out|-1|0|0.01, with and without action, and
+Buffer.get_to_list with {1, 1632, 1633, 1634, 3266, 3267, 4000, whole buffer}
+samples from index 0|3; each in a fresh state, driven by main.process().
+Every message must validate against the reference (count == number of values
+carried), name the buffer's own id, go to its server, and the /b_setn (/b_getn)
+packets must cover exactly the list (the range) in order from the start
+sample.  The packet size itself, time tags, whether the action runs and the
+score's own end marker (/c_set 0 0 of OscScore.finish) are don't-cares.
 """
 
 from mc import core
@@ -2084,7 +2096,205 @@ class _Disagree(Exception):
 
 
 SYSTEMS = {'client': ClientSys}
-replay = histbfs.replay
+
+
+def replay(job):
+    if job['case'].get('family') == 'stream':
+        dis = check_stream(job['case'])
+        return {'violates': any(d[0] == job['kind'] for d in dis),
+                'disagreements': [[d[0], repr(d[1])[:400], repr(d[2])[:400]]
+                                  for d in dis]}
+    return histbfs.replay(job)
+
+
+# --- E1 family 'stream': routine-driven buffer transfers ---------------------
+# Buffer.send_list / Buffer.new_send_list (many /b_setn packets sent from a
+# routine) and Buffer.get_to_list (many /b_getn requests sent from a routine)
+# need the NRT clock to run: one case = fresh state, the call, main.process(),
+# then the whole score is judged.  (main.process() closes the score, so these
+# cannot be steps of a longer history.)
+
+STREAM_LENS = [1, 1625, 1626, 1627, 3252, 3253, 4000]
+GET_LENS = [1, 1632, 1633, 1634, 3266, 3267, 4000]
+STREAM_WAITS = [None, -1, 0, 0.01]      # None = argument left out
+
+
+def stream_cases():
+    for entry in ('send_list', 'new_send_list'):
+        for n in STREAM_LENS:
+            for ch in (1, 2):
+                for start in ((0, 3) if entry == 'send_list' else (0,)):
+                    for wait in STREAM_WAITS:
+                        for action in (False, True):
+                            yield {'family': 'stream', 'entry': entry,
+                                   'n': n, 'ch': ch, 'start': start,
+                                   'wait': wait, 'action': action}
+    for n in GET_LENS + [None]:         # None = count left out (whole buffer)
+        for ch in (1, 2):
+            for start in (0, 3):
+                for wait in STREAM_WAITS:
+                    yield {'family': 'stream', 'entry': 'get_to_list',
+                           'n': n, 'ch': ch, 'start': start, 'wait': wait,
+                           'action': True}
+
+
+def _sample(i):
+    """exactly representable in float32, no two neighbours equal"""
+    return (i % 251) * 0.25 - 8.0
+
+
+def check_stream(case):
+    from sc3.synth.buffer import Buffer
+    sys_ = ClientSys({'fams': ['buf']})
+    main = sys_.main
+    dis = []
+    entry, n, ch = case['entry'], case['n'], case['ch']
+    start, wait = case['start'], case['wait']
+    called = []
+    kw = {}
+    if wait is not None:
+        kw['wait'] = wait
+    frames = 4096                       # of the pre-allocated buffers
+    try:
+        if entry == 'send_list':
+            lst = [_sample(i) for i in range(n)]
+            if case['action']:
+                kw['action'] = lambda *a: called.append(a)
+            b = Buffer(frames, ch)
+            b.send_list(lst, start, **kw)
+            first = start * ch          # frames -> samples
+            head = ['/b_alloc', ANY, frames, ch, OPT]
+        elif entry == 'new_send_list':
+            lst = [_sample(i) for i in range(n)]
+            if case['action']:
+                kw['action'] = lambda *a: called.append(a)
+            b = Buffer.new_send_list(lst, ch, **kw)
+            first = 0
+            head = ['/b_alloc', ANY, -(-n // ch), ch, OPT]
+        else:
+            b = Buffer(frames, ch)
+            args = [lambda *a: called.append(a), start]
+            if n is not None:
+                args.append(n)
+            b.get_to_list(*args, **kw)
+            first = start
+            count = n if n is not None else frames * ch
+            head = ['/b_alloc', ANY, frames, ch, OPT]
+        bid = getattr(b, 'bufnum', None)
+        main.process()
+    except Exception as e:
+        return [(f'op-raises:{entry}', 'no exception',
+                 f'{type(e).__name__}: {e}', '')]
+    wire, werr = sys_._decode(sys_.packets)
+    dis += werr
+    bad = [t for t in sys_.targets if t not in (sys_.srv_target[0], None)]
+    if bad:
+        dis.append((f'wrong-server:{entry}', sys_.srv_target[0], bad[:3],
+                    ''))
+    msgs = [[a] + atoms(t) for a, t in wire]
+    # the NRT score's own end marker (OscScore.finish) is not a command of
+    # the client objects
+    if msgs and msgs[-1] == ['/c_set', 0, 0]:
+        msgs, wire = msgs[:-1], wire[:-1]
+    for addr, targs in wire:
+        errs, _ = server_cmds.validate(addr, targs, _decode_blob)
+        if errs:
+            dis.append((f'schema:{addr}', 'conforms to the command '
+                        'reference', errs[:3],
+                        ([addr] + atoms(targs))[:6]))
+    if not msgs or not same_msg(head, msgs[0]) or msgs[0][1] != bid \
+            or not isinstance(bid, int):
+        dis.append((f'emission:{entry}', [head], [m[:6] for m in msgs[:1]],
+                    f'creation command with the own id ({bid!r}) first'))
+        return dis
+    body = msgs[1:]
+    cmd = '/b_getn' if entry == 'get_to_list' else '/b_setn'
+    pos = first
+    got = []
+    ok = True
+    for m in body:
+        if m[0] != cmd or len(m) < 4 or m[1] != bid:
+            ok = False
+            break
+        rest = m[2:]
+        while rest:
+            if len(rest) < 2 or not isinstance(rest[0], int) or \
+                    not isinstance(rest[1], int) or rest[0] != pos or \
+                    rest[1] < 1:
+                ok = False
+                break
+            cnt = rest[1]
+            if cmd == '/b_setn':
+                vals = rest[2:2 + cnt]
+                if len(vals) != cnt or not all(_num(v) for v in vals):
+                    ok = False
+                    break
+                got += vals
+                rest = rest[2 + cnt:]
+            else:
+                got += list(range(pos, pos + cnt))
+                rest = rest[2:]
+            pos += cnt
+        if not ok:
+            break
+    want = lst if cmd == '/b_setn' else list(range(first, first + count))
+    if not ok or got != want:
+        dis.append((f'emission:{entry}',
+                    f'{cmd} packets of buffer {bid} covering samples '
+                    f'{first}..{first + len(want) - 1} exactly, in order, '
+                    f'each count = number of values carried',
+                    [m[:4] + [f'.. {len(m) - 4} more'] for m in body][:6],
+                    f'{len(got)} samples covered of {len(want)}'))
+    return dis
+
+
+def stream_work(job):
+    viol = {}
+    n = nt = nviol = 0
+    outcomes = set()
+    for idx, case in enumerate(stream_cases()):
+        if idx % job['of'] != job['shard']:
+            continue
+        dis = check_stream(case)
+        n += 1
+        # non-trivial: the transfer needs more than one packet
+        big = case['n'] is None or case['n'] > 1626
+        nt += 1 if big else 0
+        outcomes.add(core.digest([case['entry'], case['n'], case['ch'],
+                                  case['start'], [d[0] for d in dis]]))
+        for kind, exp, obs, detail in dis:
+            nviol += 1
+            c = dict(case)
+            c['module'] = MODNAME
+            v = {'kind': kind, 'case': c, 'expected': exp, 'observed': obs,
+                 'detail': detail, 'size': len(core.canon(case)) +
+                 1000 * (case['n'] or 9999)}
+            b = viol.get(kind)
+            if b is None or (v['size'], core.canon(v['case'])) < \
+                    (b['size'], core.canon(b['case'])):
+                viol[kind] = v
+    return {'n': n, 'nt': nt, 'viol': list(viol.values()), 'nviol': nviol,
+            'out': sorted(outcomes)}
+
+
+def run_stream(ctx):
+    of = 32
+    total = 0
+    for res in ctx.map('nrt', MODNAME, 'stream_work',
+                       [{'shard': i, 'of': of} for i in range(of)]):
+        total += res['n']
+        ctx.evaluations += res['n']
+        ctx.traces += res['n']
+        ctx.states += res['n']
+        ctx.nontrivial += res['nt']
+        ctx.violation_count += res['nviol'] - len(res['viol'])
+        for v in res['viol']:
+            ctx.violation(v)
+        for o in res['out']:
+            ctx.outcomes.add(o)
+    ctx.bounds['stream'] = {
+        'cases': total, 'lengths': STREAM_LENS, 'get_lengths': GET_LENS,
+        'channels': [1, 2], 'start': [0, 3], 'wait': STREAM_WAITS}
 
 
 # --- local BFS driver -------------------------------------------------------
@@ -2340,7 +2550,9 @@ def main(ctx):
         'which); after every step the decoded wire (with the server address '
         'each entry was sent to) is '
         'compared with the command reference and a per-server set-of-ids '
-        'model. States '
+        'model. Plus an E1 family of 464 routine-driven transfers '
+        '(send_list/new_send_list/get_to_list around the packet boundary, '
+        'run by main.process(); non-trivial = more than one packet). States '
         'are deduplicated on model state + allocator contents + pending '
         'bundle. Non-trivial = some object (node, buffer group, bus, bind '
         'block) changed life-cycle state at least twice in the history.')
@@ -2397,3 +2609,4 @@ def main(ctx):
                 (nested, 5, 1), (subbus, 5, 1)]
     for params, depth, k in plan:
         run_bfs(ctx, params, depth, slice_k=k)
+    run_stream(ctx)
